@@ -43,8 +43,10 @@ def main():
             with open(mp, "w") as f:
                 json.dump(meta, f, indent=1)
         cb = meta.get("caught_by", {})
-        caught = [p for p, v in cb.items() if str(v).startswith("CAUGHT") or "quick" in str(v) and "missed" not in str(v)]
-        missed = [p for p, v in cb.items() if str(v).startswith("missed")]
+        bad = ("missed", "not-finished", "ERROR")
+        caught = [p for p, v in cb.items() if not str(v).startswith(bad)]
+        missed = [p + (" (not finished)" if str(v).startswith("not-finished") else "") for p, v in cb.items()
+                  if str(v).startswith(bad)]
         rows.append("| %s | %s | %s | %s | %s |" % (mid, meta.get("breaks_property", ""), (meta.get("summary") or "").replace("|", "/"),
                                                    ", ".join(sorted(caught)) or "-", ", ".join(sorted(missed)) or "-"))
     print("| change | property | what it does / needs | caught by (quick tier) | missed by |")
